@@ -398,6 +398,13 @@ class ProposalEq:
     ensures = dict(eq_iff_same_key="(a == b) == (a.priority == b.priority and a.source_id == b.source_id)")
 
 
+@lemma("proposal_hash_respects_eq")
+class ProposalHash:
+    """Python sets of proposals behave as sets keyed by (priority, source_id) only if equal proposals hash equal."""
+    shapes = dict(a=ProposalT, b=ProposalT)
+    ensures = dict(equal_proposals_hash_equal="implies(a == b, hash(a) == hash(b))")
+
+
 @lemma("proposal_lt_strict_total_order_on_keys")
 class ProposalLt:
     shapes = dict(a=ProposalT, b=ProposalT, c=ProposalT)
